@@ -63,6 +63,14 @@ def run(ctx):
     identity_and_debug(ctx, traces)
     P.validate(ctx, traces, "random")
 
+    # sessions: the same pipeline / detector objects run several times, reconfigured in between
+    _, sess = P.family(ctx, "session", required=P.CORE_ACTIONS + ["SkipDisabled", "MCToggle", "MCSetArgs", "MCResched", "MCRestart"],
+                       note="runs separated by Toggle / SetArgs / Reschedule of the same objects (every reachable "
+                            "enabled pattern x schedule), all run invariants at every state")
+    traces = P.sessions(ctx, sess, ctx.pick(60, 1500), kinds=("obs", "obs", "set", "add"))
+    ctx.sample({"session_ops": traces[-1]["meta"]["session"]})
+    P.validate(ctx, traces, "sessions")
+
     # the other running modes: every run of an observation / calibration is this machine
     _modes.check_modes_dispatch(ctx)
     ctx.assumptions += [
